@@ -353,7 +353,7 @@ class BTreeSpec(flow.Spec):
         cs = []
         if round_no == 0:
             cs += directed_cases()
-        n = 260 if tier == "quick" else 6000
+        n = 260 if tier == "quick" else 8000
         k = 0
         # every kind x slot pair x search x order at least once per run, then random configurations
         for kind in KINDS:
